@@ -342,6 +342,22 @@ def step (st : St) (tok : List String) (_line : String) (impl : Option String) :
       -- an endpoint that parses is dialled (and refused); only then, or without one, the relay hints are tried
       own ++ (if relay then hs.flatMap relayEndpointSites else [])
     (st, predict "main-loop-tick" fired ++ echoTail impl, judgeAt "main-loop-tick" impl)
+  | ["rt", "stall-reads"] =>
+    -- the control read sites only (witness of the round-2 seeded change)
+    let c := fun (site : Site) => if servedBehind (controlBounds 1) site then "OK_PING" else "timeout"
+    let tmo := (impl.bind (field · "ctl-timeout")).getD "?"
+    let model := s!"ok ctl-timeout={tmo} ctl-second={c .header} ctl-hdr1={c .header} ctl-hdrpart={c .header} " ++
+      s!"ctl-pay0={c .payload} ctl-payhalf={c .payload} ctl-paym1={c .payload} ctl-after=OK_PING"
+    let verdict := match impl with
+      | none => "ok"
+      | some l =>
+        if !l.startsWith "ok" then EscapeSpec.judge l
+        else if (field l "ctl-after") != some "OK_PING" then
+          "viol:stops-serving-after-release:an accept loop does not recover after the stalling client left"
+        else match ["ctl-second", "ctl-hdr1", "ctl-hdrpart", "ctl-pay0", "ctl-payhalf", "ctl-paym1"].find? (fun k => (field l k) != some "OK_PING") with
+          | some k => s!"viol:stops-serving-control:a control client that stalls while being read ({k}) keeps the control accept thread from the next client"
+          | none => "ok"
+    (st, model, verdict)
   | ["rt", "stall"] =>
     -- a client that stalls at each blocking step of each accept loop, ahead of a well-behaved one; the expectation
     -- follows the timeout / retry flags regenerated from the source (`Escape.servedBehind`)
